@@ -104,22 +104,56 @@ def defs_of(node, func):
   return out
 
 
+MUTATING_METHODS = {'append', 'extend', 'insert', 'pop', 'remove', 'clear', 'sort', 'reverse', 'update', 'setdefault', 'popitem',
+                    'add', 'discard', 'push'}
+
+
+def mutated_names(func):
+  """Local names whose object is modified in place somewhere in the function
+  (item/attribute stores, del, mutator methods): such names are never replaced
+  by their defining expression."""
+  out = set()
+  for sub in walk_no_nested(func):
+    tg = []
+    if isinstance(sub, ast.Assign):
+      tg = sub.targets
+    elif isinstance(sub, (ast.AugAssign, ast.AnnAssign)):
+      tg = [sub.target]
+    elif isinstance(sub, ast.Delete):
+      tg = sub.targets
+    for t in tg:
+      for x in ([t] if not isinstance(t, (ast.Tuple, ast.List)) else t.elts):
+        if isinstance(x, (ast.Subscript, ast.Attribute)):
+          b = x
+          while isinstance(b, (ast.Subscript, ast.Attribute)):
+            b = b.value
+          if isinstance(b, ast.Name):
+            out.add(b.id)
+    if isinstance(sub, ast.Call) and isinstance(sub.func, ast.Attribute) and sub.func.attr in MUTATING_METHODS \
+        and isinstance(sub.func.value, ast.Name):
+      out.add(sub.func.value.id)
+  out.discard('self')
+  return out
+
+
 class Reaching:
   """May-reaching definitions: IN[node] = dict name -> frozenset(Def)."""
 
   def __init__(self, cfg, edge_ok=None):
     self.cfg = cfg
+    self.mutated = mutated_names(cfg.func)
     self.gen = {n: defs_of(n, cfg.func) for n in cfg.nodes}
     self.IN = {n: {} for n in cfg.nodes}
     self.OUT = {n: {} for n in cfg.nodes}
-    work = list(cfg.nodes)
+    live = cfg.reachable(cfg.entry, edge_ok) if edge_ok is not None else None
+    work = [n for n in cfg.nodes if live is None or n in live]
     inwork = set(work)
     while work:
       n = work.pop(0)
       inwork.discard(n)
       inn = {}
       for p, lab in cfg.pred[n]:
-        if edge_ok is not None and not edge_ok(p, n, lab):
+        if edge_ok is not None and (not edge_ok(p, n, lab) or p not in live):
           continue
         for k, v in self.OUT[p].items():
           inn[k] = inn.get(k, frozenset()) | v
@@ -130,7 +164,7 @@ class Reaching:
       if out != self.OUT[n]:
         self.OUT[n] = out
         for m, lab in cfg.succ[n]:
-          if m not in inwork:
+          if m not in inwork and (live is None or m in live):
             work.append(m)
             inwork.add(m)
 
@@ -150,7 +184,7 @@ class Reaching:
       return d.value
     return None
 
-  def expand(self, node, expr, depth=8, keep=()):
+  def expand(self, node, expr, depth=8, keep=(), aliases=False):
     """Substitute local names by their unique reaching assignment, recursively
     (each RHS resolved at its own definition node).  Returns (ast, free) where
     free maps each remaining local name to the frozenset of ids of the CFG
@@ -165,7 +199,7 @@ class Reaching:
           free[e.id] = free.get(e.id, frozenset()) | frozenset(d.node.id for d in ds)
           return e
         d = rd.single_def(at, e.id)
-        if d is not None and d.how == 'assign' and d.value is not None and depth > 0:
+        if d is not None and d.how == 'assign' and d.value is not None and depth > 0 and (aliases or e.id not in rd.mutated):
           return sub(clone(d.value), d.node, depth - 1)
         ds = rd.defs_at(at, e.id)
         if ds:
